@@ -1,5 +1,5 @@
 PROP = {
-    "modules": ["IdenaModel.Props.C01"],
+    "modules": ["IdenaModel.Props.C01", "IdenaModel.Props.C01Epoch"],
     "theorems": ["IdenaModel.Determinism." + t for t in [
         "C01_isort_perm", "C01_isort_perm_nodup", "C01_isortDesc_perm", "isort_unique", "isortDesc_unique",
         "commitOps_perm", "precommitOps_perm", "identityPrecommitOps_perm", "root_eq_of_ops_eq", "committee_perm",
@@ -7,12 +7,13 @@ PROP = {
         "applyEpoch_sorted_perm", "applyEpochFull_perm", "applyEpoch_order_dependent", "applyEpoch_order_dependent_observable",
         "finalCommitteeRewards_sum_le", "finalCommitteeRewards_conserved",
         "nextValidationTime_tz_indep", "epochDays_tz_indep", "nextValidation_fixed_eq_asFound_utc", "nextValidationTime_local_tz_dep",
-        "weekday_is_a_weekday", "iterate_sorted_perm", "iterate_order_dependent"]],
+        "weekday_is_a_weekday", "iterate_sorted_perm", "iterate_order_dependent"]] + ["IdenaModel.CeremonyEpoch." + t for t in [
+        "remove_newer", "inv_step", "inv_run", "answers_function_of_chain", "same_chain_same_answers", "as_found_counterexample"]],
     "channels": [
         {"name": "C01census", "exe": "oracle_c01"},
         {"name": "C01time", "exe": "oracle_c01"},
         {"name": "C01order", "exe": "oracle_c01"},
-        {"name": "C01", "exe": None, "timeout": {"quick": 1500, "thorough": 14000}},
+        {"name": "C01", "exe": "oracle_c01h", "timeout": {"quick": 1500, "thorough": 14000}},
     ],
     "trusted_base": [
         "sort.Slice/SliceStable/Strings return a sorted rearrangement, sort.Search the least index of a monotone predicate (uniqueness theorems then give the model's list)",
